@@ -57,7 +57,11 @@ func (r *Reader) Read(p []byte) (n int, err error) {
 
 	// The remaining bits are used for the chunk size (up to 64KB).
 	r.buf = r.b[:size]
-	if _, err := io.ReadFull(r.r, r.buf); err != nil {
+	if _, err := io.ReadFull(r.r, r.buf); err == io.EOF {
+		r.buf = nil
+		return 0, io.ErrUnexpectedEOF // stream ended after the chunk header
+	} else if err != nil {
+		r.buf = nil
 		return 0, err
 	}
 
